@@ -60,6 +60,16 @@ def proc_cases(rng, n):
         else:
             tree = w(1, proc=True)
         out.append(dict(tree=tree, callers=[reqs[:3], reqs[3:]], nreq=nreq, cap=8))
+    # always: a failure raised in an upstream PROCESS stage travels through a later BATCHED process
+    # stage (and, in the second case, one more process stage): it must arrive with its original class,
+    # still marked remote, with the failure site's traceback text
+    reqs = list(range(1, 7))
+    base = dict(k='w', nw=1, pre=False, proc=True, pf=[], bp=[])
+    s1 = dict(base, mark=1, bs=0, cf=[2, 5])
+    s2 = dict(base, mark=2, bs=rng.choice([3, 4]), cf=[])
+    s3 = dict(base, mark=3, bs=0, cf=[])
+    out.append(dict(tree=dict(k='s', ch=[s1, s2]), callers=[reqs[:3], reqs[3:]], nreq=6, cap=8))
+    out.append(dict(tree=dict(k='s', ch=[dict(s1), dict(s2), s3]), callers=[reqs[:3], reqs[3:]], nreq=6, cap=8))
     return out
 
 
